@@ -16,7 +16,7 @@ MODEL = "Interp"
 SHARD = 150
 SKIPPED_FN = "case_unsupported"
 CASE_TIMEOUT = 40
-RULE = ("SF-core recipes with hidden fields / hidden tables at top level, nested, in friends, as reference targets "
+RULE = ("(artefact passes: plain; update_key on every template; update mode = update_input_file + pass-through fields on a hidden-field template) SF-core recipes with hidden fields / hidden tables at top level, nested, in friends, as reference targets "
         "and as formula / count inputs; every output format (txt, json, csv folder, sql script, sqlite db) and the "
         "generated CCI mapping are scanned for identifiers; metamorphic oracle: renaming the hidden names to visible "
         "ones must not change any other row; compared projection with the model: table and field names of every "
@@ -158,8 +158,41 @@ def with_update_keys(recipe):
     return r if n else None
 
 
+def as_update_recipe(recipe):
+    """update mode (update_input_file + pass-through fields) wants a single top-level object template
+    without count: a template of the recipe (any depth) that has a hidden field, reduced to the fields
+    that do not depend on other templates; when the recipe has none, its first visible template with a
+    hidden field and a reader of it added"""
+    def simple(t):
+        own = [x for x, _ in t["fields"]]
+        return [[f, d] for f, d in t["fields"] if d[0] in ("int", "str") or
+                (d[0] == "formula" and all(p[0] == "t" or (p[0] == "e" and (p[1][0] == "int" or
+                                                           (p[1][0] == "var" and p[1][1] in own)))
+                                           for p in d[1]))]
+    cands = [t for t in S.walk_templates(recipe) if not t.get("include") and not t["table"].startswith("__")]
+    for t in cands:
+        keep = simple(t)
+        if any(f.startswith("__") for f, _ in keep):
+            return dict(recipe, stmts=[["obj", dict(t, fields=keep, friends=[], count=None, once=False)]])
+    if cands:
+        t = cands[0]
+        keep = [[f, d] for f, d in simple(t) if f not in ("__u", "w_u")]
+        keep = [["__u", ["int", 7]]] + keep + [["w_u", ["formula", [["t", "u"], ["e", ["var", "__u"]]]]]]
+        return dict(recipe, stmts=[["obj", dict(t, fields=keep, friends=[], count=None, once=False)]])
+    return None
+
+
 def scan_artefacts(recipe, reps):
     out = _scan_artefacts(recipe, reps)
+    if "error" not in out:
+        up = as_update_recipe(recipe)
+        if up is not None:
+            out3 = _scan_artefacts(up, 1, update=True)
+            if "error" in out3:      # update mode has constraints of its own: not this property's business
+                out["update_mode_run"] = ["(failed: %s)" % out3["error"]]
+            else:
+                for k, v in out3.items():
+                    out[k + "+update_mode"] = v
     if "error" not in out:
         uk = with_update_keys(recipe)
         if uk is not None:
@@ -172,8 +205,9 @@ def scan_artefacts(recipe, reps):
     return out
 
 
-def _scan_artefacts(recipe, reps):
-    """Run the real output streams and return {artefact: [identifiers]} or {"error": ...}."""
+def _scan_artefacts(recipe, reps, update=False):
+    """Run the real output streams and return {artefact: [identifiers]} or {"error": ...}.
+    update=True: update mode - the template is driven by an input CSV, with a pass-through field."""
     from snowfakery.api import generate_data, SnowfakeryApplication
     from snowfakery.data_generator_runtime import StoppingCriteria
     import sqlite3
@@ -194,14 +228,18 @@ def _scan_artefacts(recipe, reps):
 
         def draws():     # the same injected draw stream as the capture run (recipes with random_reference)
             return injected_randbelow(chooser=S.chooser_for(recipe)) if S.uses_random(recipe) else contextlib.nullcontext()
+        extra = {}
+        if update:
+            (d / "input.csv").write_text("Oid,Ext\n003A,x1\n003B,x2\n003C,x3\n")
+            extra = dict(update_input_file=str(d / "input.csv"), update_passthrough_fields=("Oid", "Ext"))
         with draws():
             generate_data(str(d / "r.yml"), parent_application=QuietApp(StoppingCriteria("__REPS__", reps)),
                           output_files=[str(jsonf), str(txtf), str(sqlf)], dburl=f"sqlite:///{db}",
-                          generate_cci_mapping_file=str(mapf))
+                          generate_cci_mapping_file=str(mapf), **extra)
         (d / "csv").mkdir()
         with draws():
             generate_data(str(d / "r.yml"), parent_application=QuietApp(StoppingCriteria("__REPS__", reps)),
-                          output_format="csv", output_folder=str(d / "csv"))
+                          output_format="csv", output_folder=str(d / "csv"), **extra)
         ids = []
         for obj in json.loads(jsonf.read_text() or "[]"):
             ids.extend(obj.keys())
@@ -343,7 +381,23 @@ def nontrivial(case, obs):
     return "ok" in obs and bool(f & {"hidden_field", "hidden_table"})
 
 
-stats = S.feature_stats
+def stats(cases, obss):
+    st = S.feature_stats(cases, obss)
+    from collections import Counter
+    passes = Counter()
+    for o in obss:
+        art = o.get("artefacts") if isinstance(o, dict) else None
+        if not isinstance(art, dict):
+            continue
+        passes["plain"] += 1
+        passes["update_key"] += any(k.endswith("+update_key") for k in art)
+        passes["update_key_failed"] += "update_key_run" in art
+        passes["update_mode"] += any(k.endswith("+update_mode") for k in art)
+        passes["update_mode_failed"] += "update_mode_run" in art
+    st["artefact_passes"] = dict(passes)
+    return st
+
+
 shrink = S.shrink_recipe_case
 
 
